@@ -16,6 +16,7 @@ import shutil
 import subprocess
 
 import vdrv
+import glob
 import mutants
 
 
@@ -115,6 +116,9 @@ def _one_mutant(args):
     os.makedirs(scratch)
     try:
         shutil.copytree(os.path.join(vdrv.REPO, "src"), os.path.join(scratch, "src"))
+        for f in ("Cargo.toml", "Cargo.lock"):      # so that the witness crate can be built against the copy
+            if os.path.exists(os.path.join(vdrv.REPO, f)):
+                shutil.copy(os.path.join(vdrv.REPO, f), os.path.join(scratch, f))
         if not mutants.apply(m, scratch):
             return ("not_applicable", mname, None)
         env = dict(os.environ, VERIF_REPO=scratch, VERIF_TIER="quick", VERIF_NO_EVIDENCE="1", VERIF_WORK=work)
@@ -141,6 +145,41 @@ def mutation_selftest(prop, workdir):
     return res
 
 
+def _one_benign(args):
+    prop, workdir, k, name, path = args
+    scratch = os.path.join(workdir, "benign_repo_%d" % k)
+    work = os.path.join(workdir, "benign_work_%d" % k)
+    for d in (scratch, work):
+        if os.path.exists(d):
+            shutil.rmtree(d)
+    os.makedirs(scratch)
+    try:
+        shutil.copytree(os.path.join(vdrv.REPO, "src"), os.path.join(scratch, "src"))
+        for f in ("Cargo.toml", "Cargo.lock"):      # so that the witness crate can be built against the copy
+            if os.path.exists(os.path.join(vdrv.REPO, f)):
+                shutil.copy(os.path.join(vdrv.REPO, f), os.path.join(scratch, f))
+        r0 = subprocess.run(["patch", "-p1", "-s", "-d", scratch, "-i", path], stdout=subprocess.PIPE, stderr=subprocess.PIPE)
+        if r0.returncode != 0:
+            return {"refactor": name, "verdict": "not_applicable"}
+        env = dict(os.environ, VERIF_REPO=scratch, VERIF_TIER="quick", VERIF_NO_EVIDENCE="1", VERIF_WORK=work)
+        r = subprocess.run([os.path.join(vdrv.VERIF, "check"), prop, "--tier", "quick"], env=env, stdout=subprocess.PIPE, stderr=subprocess.PIPE, text=True)
+        return {"refactor": name, "verdict": {0: "held", 1: "FALSE-ALARM", 2: "undecided"}.get(r.returncode, "exit %d" % r.returncode),
+                "failed_obligations": re.findall(r"FAILED-OBLIGATION property=\S+ (\S+)", r.stdout)[:4]}
+    finally:
+        for d in (scratch, work):
+            shutil.rmtree(d, ignore_errors=True)
+
+
+def benign_selftest(prop, workdir):
+    """the behaviour-preserving refactors written against this property (benign/<prop>-benign*/patch.diff) on a
+    scratch copy: the check must not alarm (exit 0, or exit 2 where the body left the verified shape)"""
+    from concurrent.futures import ThreadPoolExecutor
+    jobs = [(prop, workdir, k, os.path.basename(os.path.dirname(p)), p)
+            for k, p in enumerate(sorted(glob.glob(os.path.join(vdrv.VERIF, "benign", prop + "-benign*", "patch.diff"))))]
+    with ThreadPoolExecutor(max_workers=2) as ex:
+        return list(ex.map(_one_benign, jobs))
+
+
 def run(prop, cfg, seed, workdir, results):
     out = {"seed_variation": [], "vacuity_probes": 0, "vacuous": [], "unstable": []}
     for r in results:
@@ -156,6 +195,10 @@ def run(prop, cfg, seed, workdir, results):
             out["vacuous"].extend(vac)
     if not out["unstable"] and not out["vacuous"] and not os.environ.get("VERIF_NO_MUTANTS"):
         out["mutation_selftest"] = mutation_selftest(prop, workdir)
+        out["benign_selftest"] = benign_selftest(prop, workdir)
+        bad = [b for b in out["benign_selftest"] if b["verdict"] == "FALSE-ALARM"]
+        if bad:
+            out["unstable"] = out.get("unstable", []) + [{"unit": "benign_selftest", "flips": bad}]
     if not out["unstable"]:
         out.pop("unstable")
     if not out["vacuous"]:
